@@ -1,92 +1,19 @@
-import Lean.Data.Json
-import LasioModel
+import DriverOps.Core
+import DriverOps.NumLit
+import DriverOps.Writer
+import DriverOps.Reader
+import DriverOps.Data
+import DriverOps.Copy
+import DriverOps.Curves
+import DriverOps.Views
+import DriverOps.Channel
 /-
 Line protocol: one JSON request per line on stdin, one JSON answer per line on stdout.
 The driver only (de)serialises; every answer is computed by the definitions in `LasioModel`,
 which are the same definitions the theorems in `LasioProofs` are about.
+Ops are namespaced by prefix: "sec", "hl" (Core) and "<prefix>.<name>" for the other op files.
 -/
 open Lean Lasio
-
-def jstr (s : Str) : Json := Json.str (String.ofList s)
-def jerr (e : Err) : Json := Json.str (match e with
-  | .keyError => "KeyError" | .indexError => "IndexError" | .valueError => "ValueError"
-  | .typeError => "TypeError" | .other => "Other")
-
-def getS (j : Json) : Except String Str := do let s ← j.getStr?; pure s.toList
-def getKey (j : Json) : Except String Key :=
-  match j with
-  | .str s => pure (.str s.toList)
-  | _ => do let i ← j.getInt?; pure (.int i)
-
-def arr (j : Json) : Except String (Array Json) := j.getArr?
-
-def dumpSec (s : Section) : Json :=
-  Json.arr (s.items.map fun it => Json.arr #[jstr it.orig, jstr it.session, jstr it.value]).toArray
-
-def probe (s : Section) (k : Key) : Json :=
-  Json.arr #[Json.bool (s.contains k), match s.getitem k with
-    | .ok i => Json.num (JsonNumber.fromNat i)
-    | .error e => jerr e]
-
-/-- run one `SectionItems` operation -/
-def secStep (s : Section) (op : Array Json) : Except String (Section × Json) := do
-  let name ← (op[0]!).getStr?
-  match name with
-  | "append" => do
-    let o ← getS op[1]!; let v ← getS op[2]!
-    pure (s.append (mkItem o [] v []), Json.str "ok")
-  | "insert" => do
-    let i ← (op[1]!).getInt?; let o ← getS op[2]!; let v ← getS op[3]!
-    pure (s.insert i (mkItem o [] v []), Json.str "ok")
-  | "del" => do
-    let k ← getKey op[1]!
-    match s.delitem k with
-    | .ok s' => pure (s', Json.str "ok")
-    | .error e => pure (s, jerr e)
-  | "pop" => do
-    let i ← (op[1]!).getInt?
-    match s.pop i with
-    | .ok s' => pure (s', Json.str "ok")
-    | .error e => pure (s, jerr e)
-  | "setitem" => do
-    let k ← getKey op[1]!; let o ← getS op[2]!; let v ← getS op[3]!
-    pure (s.setItem k (mkItem o [] v []), Json.str "ok")
-  | "setval" => do
-    let k ← getKey op[1]!; let v ← getS op[2]!
-    match s.setValue k v with
-    | .ok s' => pure (s', Json.str "ok")
-    | .error e => pure (s, jerr e)
-  | "get" => do
-    let m ← getS op[1]!; let d ← getS op[2]!; let add ← (op[3]!).getBool?
-    let (it, s') := s.get m d add
-    pure (s', Json.arr #[jstr it.orig, jstr it.session, jstr it.value])
-  | _ => throw s!"unknown section op {name}"
-
-def handleSec (j : Json) : Except String Json := do
-  let tr ← (← j.getObjVal? "tr").getBool?
-  let ops ← arr (← j.getObjVal? "ops")
-  let probes ← (← arr (← j.getObjVal? "probes")).mapM getKey
-  let mut s : Section := ⟨[], tr⟩
-  let mut out : Array Json := #[]
-  for op in ops do
-    let (s', r) ← secStep s (← arr op)
-    s := s'
-    out := out.push (Json.mkObj [("r", r), ("items", dumpSec s),
-      ("probes", Json.arr (probes.map (probe s)))])
-  pure (Json.arr out)
-
-def secName (s : String) : SecName :=
-  match s with
-  | "Version" => .version | "Well" => .well | "Curves" => .curves | "Parameter" => .parameter | _ => .other
-
-def jfields (f : Fields) : Json := Json.arr #[jstr f.name, jstr f.unit, jstr f.value, jstr f.descr]
-
-def handleHl (j : Json) : Except String Json := do
-  let sec ← (← j.getObjVal? "sec").getStr?
-  let line ← getS (← j.getObjVal? "line")
-  match parseHeaderLine (secName sec) line with
-  | some f => pure (jfields f)
-  | none => pure Json.null
 
 def handle (j : Json) : Except String Json := do
   let op ← (← j.getObjVal? "op").getStr?
@@ -94,7 +21,17 @@ def handle (j : Json) : Except String Json := do
   | "sec" => handleSec j
   | "hl" => handleHl j
   | "ping" => pure (Json.str "pong")
-  | _ => throw s!"unknown op {op}"
+  | _ =>
+    match (op.splitOn ".").head? with
+    | some "num" => handleNumLit op j
+    | some "wr" => handleWriter op j
+    | some "rd" => handleReader op j
+    | some "dt" => handleData op j
+    | some "cp" => handleCopy op j
+    | some "cv" => handleCurves op j
+    | some "vw" => handleViews op j
+    | some "ch" => handleChannel op j
+    | _ => throw s!"unknown op {op}"
 
 partial def loop (hin hout : IO.FS.Stream) : IO Unit := do
   let line ← hin.getLine
